@@ -530,10 +530,27 @@ def callee_by_value(repo: Repo, rep):
     node_param = f.params[2] if len(f.params) > 2 else "old_node"
     n = 0
     bad = False
+    from ..defuse import derives_from as _df
+
+    def _from_callee(c, y):
+        return _df(cfg, c, y, lambda z: isinstance(z, ast.Attribute) and z.attr == "func" and norm(z.value) == node_param)
+
     for c in cfg.conds():
         e = c.ast
         mentions_func = any(isinstance(x, ast.Attribute) and x.attr == "func" and norm(x.value) == node_param for x in ast.walk(e))
         if not mentions_func:
+            # the same decision with the callee / its name held in locals (also the shape a helper has once it is put back at its call)
+            if _df(cfg, c, e, lambda x: isinstance(x, ast.Attribute) and x.attr in ("id", "attr") and isinstance(x.ctx, ast.Load) and _from_callee(c, x.value)):
+                n += 1
+                bad = True
+                rep.violation(
+                    "R-CALLEE-BY-VALUE",
+                    f,
+                    e,
+                    f"`{short(e, 70)}` decides on the spelling of the called name (the identifier text of `{node_param}.func` reaches this condition): a class used through an alias "
+                    "(`from models import Point as P`, `Pt = Point`, `models.Point`) is treated as a factory call, any fix regenerates the whole call and drops the unchanged arguments' text",
+                    construct="callee-spelling",
+                )
             continue
         n += 1
         hits = [x for x in _spelling_reads(e) if not (isinstance(x, ast.Attribute) and x.attr in ("id", "attr") and False)]
